@@ -9,6 +9,7 @@ import (
 	"encoding/binary"
 	"errors"
 	"fmt"
+	"math"
 	"net"
 	"sync"
 	"time"
@@ -122,6 +123,10 @@ func setupRange(args ...string) (handler.Handler4, error) {
 
 	p.LeaseTime, err = time.ParseDuration(args[3])
 	if err != nil {
+		return nil, fmt.Errorf("invalid lease duration: %v", args[3])
+	}
+	// the IP Address Lease Time option carries an unsigned 32-bit number of seconds
+	if p.LeaseTime < 0 || p.LeaseTime/time.Second > math.MaxUint32 {
 		return nil, fmt.Errorf("invalid lease duration: %v", args[3])
 	}
 
